@@ -470,7 +470,8 @@ def run(ctx):
         me = mk('T1', 'S1')
         you = mk('T1' if same_tree else 'T2', 'S1' if same_print else 'S2') if is_ast else 'not a node'
         stubs = {'str': lambda it, x=None: x.attrs['_str'] if isinstance(x, Obj) else str(x), 'to_single_line': lambda it, x: x, 'repr': lambda it, x: repr(x)}
-        it = Interp({'Select': {'ASTNode'}}, stubs, methods={'Select': {k: v for k, v in base.methods.items() if k not in ('to_tree', 'to_string', 'get_string')}})
+        it = Interp.for_file(ctx.src, base.file, {'Select': {'ASTNode'}}, stubs,
+                             methods={'Select': {k: v for k, v in base.methods.items() if k not in ('to_tree', 'to_string', 'get_string')}})
         try:
             got = it.call_function(fn, [me, you], {}, Env())
         except Raised as r:
